@@ -67,3 +67,138 @@ def run_iter(rel, q, ordinal, c=None, **kw):
 
 def lives(states, statuses=("run", "cont", "brk", "ret")):
     return live(states, statuses)
+
+
+def rec_addr(t):
+    """address of a record object passed by reference.  The engine shows `obj->member` (a member record) as select(H.member:I, (obj,)) and
+    `*ptr` as select(H.mem:I, (ptr, 0)); both are normalised to the address term (fld:member(obj) resp. ptr) so that two ways of naming the
+    same object compare equal."""
+    if t is None or isinstance(t, tuple) or t.op != "select":
+        return t
+    arr = t.args[0]
+    base = arr
+    while base.op == "store":
+        base = base.args[0]
+    if base.op != "sym":
+        return t
+    nm = str(base.args[0])
+    idx = t.args[1:] if len(t.args) > 2 else t.args[1]
+    if isinstance(idx, tuple) and len(idx) == 2 and ".mem:" in nm:
+        return idx[0]
+    if isinstance(idx, tuple) and len(idx) == 1 and "." in nm and ":" in nm:
+        f = nm.split(".", 1)[1].split(":")[0]
+        return tm.app("fld:" + f, (idx[0],), "P")
+    return t
+
+
+# ---- entry-state readers that also work when a component is first read inside the iteration after an earlier loop of the same function
+# (or an inner loop) was havocked: component symbols then carry a prefix H<n> with n > 0
+_common_entry_arr = entry_arr
+import re as _re
+
+
+def _arr_name(key):
+    if key[0] == "f":
+        return "%s:%s" % (key[1], key[2])
+    if key[0] == "m":
+        return "mem:%s" % (key[1],)
+    return None
+
+
+def _all_terms(s):
+    for p in s.pc:
+        yield p
+    for e in s.events:
+        for a in e.args:
+            if a is not None and not isinstance(a, tuple):
+                yield a
+        if e.recv is not None and not isinstance(e.recv, tuple):
+            yield e.recv
+    for v in s.locals.values():
+        if v is not None and not isinstance(v, tuple):
+            yield v
+    for v in s.heap.values():
+        yield v
+
+
+def entry_arr(ex, s, key):
+    if getattr(s, "iter_entry_arrays", None) is None:
+        return _common_entry_arr(ex, s, key)          # not an iteration state: entry of the function / region (H0)
+    if key in getattr(ex, "iter_written", ()):
+        return _common_entry_arr(ex, s, key)
+    stop = s.iter_entry_arrays.get(key, ())
+    if stop:
+        return _common_entry_arr(ex, s, key)
+    nm = _arr_name(key)
+    if nm is None:
+        return _common_entry_arr(ex, s, key)
+    b0 = s.heap.get(key)
+    while b0 is not None and b0.op == "store":
+        b0 = b0.args[0]
+    if b0 is not None and b0.op == "sym" and str(b0.args[0]).startswith("Hiter."):
+        return b0                 # second pass of the iteration contract: the component is arbitrary at iteration entry
+    best = None
+    seen = set()
+    for t in _all_terms(s):
+        for u in tm.subterms(t, seen):
+            if u.op == "sym" and isinstance(u.sort, tuple) and u.sort and u.sort[0] == "A":
+                m = _re.match(r"^H(\d+)\.(.*)$", str(u.args[0]))
+                if m and m.group(2) == nm:
+                    k = int(m.group(1))
+                    if best is None or k < best[0]:
+                        best = (k, u)
+    if best is not None:
+        return best[1]
+    return ex.heap_arr(s, key)
+
+
+def renamed_since_entry(ex, s, key):
+    """was the component replaced by a fresh symbol (inner loop havocked) after the iteration started?"""
+    a = s.heap.get(key)
+    if a is None:
+        return False
+    while a.op == "store":
+        a = a.args[0]
+    return a is not entry_arr(ex, s, key)
+
+
+def fld0(ex, s, name, sort, obj=THIS):
+    return tm.select(entry_arr(ex, s, ("f", name, sort)), obj)
+
+
+def vec_elem(ex, s, vec_field, idx, owner=THIS, sort="P", entry=True):
+    get = entry_arr if entry else (lambda ex, s, k: ex.heap_arr(s, k))
+    data = tm.select(get(ex, s, ("f", "#vdata", "P")), tm.app("fld:" + vec_field, (owner,), "P"))
+    return tm.select(get(ex, s, ("m", sort)), data, idx)
+
+
+def loops_with_body(fn, rel, needle, innermost=True):
+    """ordinals of the loops whose BODY text (white space and comments removed) contains `needle` - an anchor by what the loop does, not by its
+    condition; innermost=True drops loops that merely contain another matching loop"""
+    lps = loops_of(fn)
+    hit = [k for k, lp in enumerate(lps) if needle in text_of(rel, lp["inner"][-1])]
+    if innermost:
+        hit = [k for k in hit if not any(j != k and any(y is lps[j] for y in A.walk(lps[k]["inner"][-1])) for j in hit)]
+    return hit
+
+
+def the_loop(fn, rel, needle, innermost=True, nth=0, what=""):
+    hs = loops_with_body(fn, rel, needle, innermost)
+    if len(hs) <= nth:
+        raise Undecided("loop whose body contains `%s` not found (%s)" % (needle, what))
+    return hs[nth]
+
+
+def ifs_with_then(fn, rel, needle):
+    """IfStmts whose THEN branch contains `needle` (innermost ones): an anchor by what the branch does, never by the text of its condition"""
+    out = [x for x in A.walk(fn) if x.get("kind") == "IfStmt" and len(x.get("inner", [])) >= 2 and needle in text_of(rel, x["inner"][1])]
+    return [x for x in out if not any(y is not x and any(z is y for z in A.walk(x["inner"][1])) for y in out)]
+
+
+def index_of(s, prefix="iter_"):
+    """integer loop-induction symbols of an iteration state"""
+    out = []
+    for v in s.locals.values():
+        if v is not None and not isinstance(v, tuple) and v.op == "sym" and str(v.args[0]).startswith(prefix) and v.sort == "I" and v not in out:
+            out.append(v)
+    return out
